@@ -21,7 +21,7 @@
 """Pattern matching for principal and host names"""
 
 from fnmatch import fnmatch
-from typing import Union
+from typing import Sequence, Union
 
 from .misc import IPAddress, ip_network
 
@@ -92,11 +92,14 @@ class _PatternList:
 
     """
 
-    def __init__(self, patterns: str):
+    def __init__(self, patterns: Union[str, Sequence[str]]):
         self._pos_patterns = []
         self._neg_patterns = []
 
-        for pattern in patterns.split(','):
+        if isinstance(patterns, str):
+            patterns = patterns.split(',')
+
+        for pattern in patterns:
             if pattern.startswith('!'):
                 negate = True
                 pattern = pattern[1:]
